@@ -156,6 +156,8 @@ func (o op) String() string {
 	switch o.Kind {
 	case "upd":
 		return fmt.Sprintf("upd(%x,%x)", o.K, o.V)
+	case "deref":
+		return "deref-old-root"
 	case "del", "get", "iter":
 		return fmt.Sprintf("%s(%x)", o.Kind, o.K)
 	case "limit":
@@ -263,12 +265,14 @@ func genHistory(r *hx.Rng) ([]op, string) {
 			h = append(h, op{Kind: "upd", K: pick(), V: genValue(r)})
 		case x < 64:
 			h = append(h, op{Kind: "del", K: pick()})
-		case x < 76:
+		case x < 73:
 			k := pick()
 			if r.Intn(6) == 0 {
 				k = append(append([]byte{}, k...), byte(r.Intn(256))) // near miss
 			}
 			h = append(h, op{Kind: "get", K: k})
+		case x < 76:
+			h = append(h, op{Kind: "deref"}) // garbage-collect an older committed root (only right after a commit)
 		case x < 80:
 			h = append(h, op{Kind: "iter", K: func() []byte {
 				if r.Bool() {
@@ -287,6 +291,9 @@ func genHistory(r *hx.Rng) ([]op, string) {
 			}
 			roots++
 			h = append(h, op{Kind: []string{"hash", "commit", "commit", "reopen-disk", "reopen-mem"}[r.Intn(5)]})
+			if r.Intn(2) == 0 {
+				h = append(h, op{Kind: "deref"})
+			}
 		}
 	}
 	return h, style
@@ -299,6 +306,8 @@ type sut struct {
 	t      *trie.Trie
 	shadow map[string][]byte
 	limit  uint16
+	roots  []common.Hash // roots committed into the memory cache of the current NodeDatabase, oldest first
+	clean  bool          // no update since the last commit
 }
 
 func newSut() *sut {
@@ -519,8 +528,27 @@ func (rn *runner) checkIter(s *sut, start []byte, got []pair, err error, h []op,
 
 // run one history on the implementation; returns the Coq hop terms
 func (rn *runner) run(h []op, universe [][]byte) (hops []string, jsn []string, s *sut) {
+	hops, jsn, s, _ = rn.runB(h, universe)
+	return
+}
+
+// runB additionally returns the layer-B observations (cache model: HarnessB.v)
+func (rn *runner) runB(h []op, universe [][]byte) (hops []string, jsn []string, s *sut, hopsB []string) {
 	s = newSut()
 	emit := func(term string) { hops = append(hops, term); jsn = append(jsn, term) }
+	emitB := func(term string) { hopsB = append(hopsB, term) }
+	storeB := func() { // NodeDatabase.Nodes() and the disk keys
+		var ms, ds []string
+		for _, hsh := range s.tdb.Nodes() {
+			ms = append(ms, hx.CoqHex(hsh[:]))
+		}
+		sort.Strings(ms)
+		for _, k := range s.mem.Keys() {
+			ds = append(ds, hx.CoqHex(k))
+		}
+		sort.Strings(ds)
+		emitB(fmt.Sprintf("BStore %s %s", hx.CoqList(ms), hx.CoqList(ds)))
+	}
 	step := -1
 	diskDumped := false
 	defer func() {
@@ -530,7 +558,7 @@ func (rn *runner) run(h []op, universe [][]byte) (hops []string, jsn []string, s
 				kind = h[step].Kind
 			}
 			rn.violate("C02/panic:"+kind, fmt.Sprint(p), h, step)
-			hops = nil
+			hops, hopsB = nil, nil
 		}
 	}()
 	rootTerm := func(root common.Hash, withNode bool) string {
@@ -561,6 +589,8 @@ func (rn *runner) run(h []op, universe [][]byte) (hops []string, jsn []string, s
 				s.shadow[string(o.K)] = o.V
 			}
 			emit(fmt.Sprintf("HUpd %s %s", hx.CoqHex(o.K), hx.CoqHex(o.V)))
+			emitB(fmt.Sprintf("BUpd %s %s", hx.CoqHex(o.K), hx.CoqHex(o.V)))
+			s.clean = false
 		case "del":
 			if err := s.t.TryDelete(o.K); err != nil {
 				rn.violate("C02/missing-node:del", err.Error(), h, i)
@@ -570,6 +600,8 @@ func (rn *runner) run(h []op, universe [][]byte) (hops []string, jsn []string, s
 			}
 			delete(s.shadow, string(o.K))
 			emit(fmt.Sprintf("HDel %s", hx.CoqHex(o.K)))
+			emitB(fmt.Sprintf("BDel %s", hx.CoqHex(o.K)))
+			s.clean = false
 		case "get":
 			v, err := s.t.TryGet(o.K)
 			if err != nil {
@@ -580,10 +612,12 @@ func (rn *runner) run(h []op, universe [][]byte) (hops []string, jsn []string, s
 				rn.violate("C02/read-last-write", fmt.Sprintf("TryGet(%x)=%x, last value written %x", o.K, v, want), h, i)
 			}
 			emit(fmt.Sprintf("HGet %s %s %s", hx.CoqHex(o.K), hx.CoqBool(len(v) > 0), hx.CoqHex(v)))
+			emitB(fmt.Sprintf("BGet %s %s %s", hx.CoqHex(o.K), hx.CoqBool(len(v) > 0), hx.CoqHex(v)))
 		case "hash":
 			root := s.t.Hash()
 			rn.checkRoot(s, root, h, i, "hash")
 			emit(rootTerm(root, false))
+			emitB(fmt.Sprintf("BHash %s", hx.CoqHex(root[:])))
 		case "commit":
 			root, err := s.t.Commit(nil)
 			if err != nil {
@@ -592,6 +626,9 @@ func (rn *runner) run(h []op, universe [][]byte) (hops []string, jsn []string, s
 			rn.checkRoot(s, root, h, i, "commit")
 			rn.flags["commit"] = true
 			emit(rootTerm(root, true))
+			emitB(fmt.Sprintf("BCommit %s", hx.CoqHex(root[:])))
+			storeB()
+			s.roots, s.clean = append(s.roots, root), true
 		case "flush": // commit and push the node database to disk; the trie keeps running
 			root, err := s.t.Commit(nil)
 			if err == nil {
@@ -600,10 +637,14 @@ func (rn *runner) run(h []op, universe [][]byte) (hops []string, jsn []string, s
 			if err != nil {
 				rn.violate("C02/missing-node:flush", err.Error(), h, i)
 			}
+			emitB("BFlush")
+			storeB()
+			s.roots, s.clean = append(s.roots, root), true
 			rn.flags["commit"] = true
 		case "limit":
 			s.t.SetCacheLimit(o.L)
 			s.limit = o.L
+			emitB(fmt.Sprintf("BLimit %d%%N", o.L))
 			rn.flags["limit"] = true
 		case "reopen-disk", "reopen-mem":
 			root, err := s.t.Commit(nil)
@@ -615,6 +656,7 @@ func (rn *runner) run(h []op, universe [][]byte) (hops []string, jsn []string, s
 					rn.violate("C02/reopen:db-commit", err.Error(), h, i)
 				}
 				s.tdb = trie.NewDatabase(s.mem) // nothing survives but the disk content
+				s.roots = nil
 				// layer B observation: the whole disk store (hash -> node RLP), once per history and only when small
 				if !diskDumped {
 					keys := s.mem.Keys()
@@ -635,7 +677,7 @@ func (rn *runner) run(h []op, universe [][]byte) (hops []string, jsn []string, s
 			t2, err := trie.NewTrie(root, s.tdb)
 			if err != nil {
 				rn.violate("C02/reopen:"+o.Kind, "committed root cannot be opened: "+err.Error(), h, i)
-				return nil, nil, s
+				return nil, nil, s, nil
 			}
 			s.t = t2
 			s.t.SetCacheLimit(s.limit)
@@ -646,6 +688,35 @@ func (rn *runner) run(h []op, universe [][]byte) (hops []string, jsn []string, s
 			rn.checkRoot(s, root2, h, i, o.Kind)
 			rn.flags["reload"] = true
 			emit(rootTerm(root2, true))
+			if o.Kind == "reopen-disk" {
+				emitB(fmt.Sprintf("BReopenDisk %s", hx.CoqHex(root2[:])))
+			} else {
+				emitB(fmt.Sprintf("BReopenMem %s", hx.CoqHex(root2[:])))
+			}
+			storeB()
+			s.roots, s.clean = append(s.roots, root), true
+		case "deref":
+			// NodeDatabase.Dereference of an older root, as the chain does once a newer root is committed
+			if s.clean && len(s.roots) >= 2 {
+				cur := s.roots[len(s.roots)-1]
+				for j, r := range s.roots[:len(s.roots)-1] {
+					if r != cur && r != (common.Hash{}) {
+						s.tdb.Dereference(r)
+						var keep []common.Hash
+						for _, q := range s.roots {
+							if q != r {
+								keep = append(keep, q)
+							}
+						}
+						_ = j
+						s.roots = keep
+						rn.flags["deref"] = true
+						emitB(fmt.Sprintf("BDeref %s", hx.CoqHex(r[:])))
+						storeB()
+						break
+					}
+				}
+			}
 		case "iter":
 			got, err := listing(s.t, o.K)
 			rn.checkIter(s, o.K, got, err, h, i)
@@ -654,6 +725,7 @@ func (rn *runner) run(h []op, universe [][]byte) (hops []string, jsn []string, s
 				items[j] = fmt.Sprintf("(%s, %s)", hx.CoqHex(p.K), hx.CoqHex(p.V))
 			}
 			emit(fmt.Sprintf("HIter %s %s", hx.CoqHex(o.K), hx.CoqList(items)))
+			emitB(fmt.Sprintf("BIter %s %s", hx.CoqHex(o.K), hx.CoqList(items)))
 		}
 	}
 	// end of history: every key of the universe reads its last write; root; full iteration
@@ -668,6 +740,7 @@ func (rn *runner) run(h []op, universe [][]byte) (hops []string, jsn []string, s
 			rn.violate("C02/read-last-write", fmt.Sprintf("TryGet(%x)=%x, last value written %x", k, v, want), hEnd, len(h))
 		}
 		emit(fmt.Sprintf("HGet %s %s %s", hx.CoqHex(k), hx.CoqBool(len(v) > 0), hx.CoqHex(v)))
+		emitB(fmt.Sprintf("BGet %s %s %s", hx.CoqHex(k), hx.CoqBool(len(v) > 0), hx.CoqHex(v)))
 	}
 	got, err := listing(s.t, nil)
 	rn.checkIter(s, nil, got, err, hEnd, len(h))
@@ -676,9 +749,11 @@ func (rn *runner) run(h []op, universe [][]byte) (hops []string, jsn []string, s
 		items[j] = fmt.Sprintf("(%s, %s)", hx.CoqHex(p.K), hx.CoqHex(p.V))
 	}
 	emit(fmt.Sprintf("HIter %s %s", hx.CoqHex(nil), hx.CoqList(items)))
+	emitB(fmt.Sprintf("BIter %s %s", hx.CoqHex(nil), hx.CoqList(items)))
 	root := s.t.Hash()
 	rn.checkRoot(s, root, hEnd, len(h), "final")
 	emit(rootTerm(root, false))
+	emitB(fmt.Sprintf("BHash %s", hx.CoqHex(root[:])))
 	return
 }
 
@@ -694,7 +769,7 @@ func class(s *sut, flags map[string]bool) string {
 		live = "4+"
 	}
 	f := []string{}
-	for _, k := range []string{"del-present", "overwrite", "commit", "reload", "limit", "disk-dump"} {
+	for _, k := range []string{"del-present", "overwrite", "commit", "reload", "limit", "disk-dump", "deref"} {
 		if flags[k] {
 			f = append(f, k)
 		}
@@ -729,6 +804,11 @@ func main() {
 		perShard = 80 // keep the number of shards (coqc processes) below ~80
 	}
 	cs := hx.NewCases(a.Out, "From V.C02 Require Import Model Harness.", "list hop", "check", perShard)
+	csB := hx.NewCasesNamed(a.Out, "b", "From V.C02 Require Import HarnessB.", "list hopB", "checkB", perShard)
+	nBcases, bEvery := 0, 2 // quick: every second eligible history also through the cache model
+	if a.Tier == "thorough" {
+		bEvery = 1
+	}
 	rn := &runner{res: res, rng: rng.Fork(), seen: map[string]int{}}
 
 	doOne := func(h []op, uni [][]byte, toModel bool, sample bool) {
@@ -745,7 +825,7 @@ func main() {
 				max2 = true
 			}
 		}
-		hops, jsn, s := rn.run(h, uni)
+		hops, jsn, s, hopsB := rn.runB(h, uni)
 		rn.flush()
 		id := histString(h)
 		res.Count(class(s, rn.flags), id, max2)
@@ -755,6 +835,13 @@ func main() {
 		if toModel {
 			if src, _ := modelCost(hops); src <= 3000*2 {
 				cs.Add(hx.CoqList(hops), map[string]interface{}{"history": id, "observed": jsn})
+				// layer B (cache model): histories that commit / reload / set a cache limit
+				if hopsB != nil && (rn.flags["commit"] || rn.flags["reload"] || rn.flags["limit"]) {
+					if srcB, _ := modelCost(hopsB); srcB <= 3000*2 && nBcases%bEvery == 0 {
+						csB.Add(hx.CoqList(hopsB), map[string]interface{}{"history": id, "observedB": hopsB})
+					}
+					nBcases++
+				}
 			} else {
 				res.Histogram["model-skipped-too-large"]++
 			}
@@ -897,7 +984,9 @@ func main() {
 	res.Note(fmt.Sprintf("direct search without model: %d more generated histories; exhaustive: all %d histories of length 2..%d over %d operations (3 keys x {1-byte, 29-byte value (leaf RLP of exactly 32 bytes), delete}, hash, commit, flush, reopen-disk, reopen-mem), each with cache limit 0 and 1 (length 5: alternately one of the two)", extra, nB, bLen, len(bOps)))
 
 	cs.Close()
-	res.ModelCases = cs.Total()
+	csB.Close()
+	res.Note(fmt.Sprintf("layer B (cache model, HarnessB.v): %d histories with commit / flush / reopen / cache limit re-evaluated through the model with node flags, hash placeholders and the NodeDatabase (reads, roots, listings, exact memory-cache and disk node sets)", csB.Total()))
+	res.ModelCases = cs.Total() + csB.Total()
 	res.Write(a.Out)
 	keys := make([]string, 0, len(res.Histogram))
 	for k := range res.Histogram {
